@@ -31,6 +31,26 @@ class InsertingDict(dict):
         return None
 
 
+class VivMapping(values.BareMapping):
+    """The same for a mapping that is NOT a dict: indexing an absent key creates the entry (an auto-vivifying tree); `get` and
+    `in` do not."""
+    __slots__ = ()
+
+    def __getitem__(self, k):
+        if k not in self._d:
+            self._d[k] = None
+        return self._d[k]
+
+    def get(self, k, default=None):
+        return self._d.get(k, default)
+
+    def __contains__(self, k):
+        return k in self._d
+
+    def __repr__(self):
+        return f"VivMapping({self._d!r})"
+
+
 def snap(v):
     ty = type(v)
     if ty in (list, tuple) or isinstance(v, list):
@@ -78,6 +98,7 @@ def values_c09(ast, tier):
             if type(v) is dict and len(extra) < 40:
                 extra.append(collections.defaultdict(int, v))
                 extra.append(InsertingDict(v))
+                extra.append(VivMapping(v))
             elif type(v) is list and v and type(v[0]) is dict and len(extra) < 40:
                 extra.append([InsertingDict(v[0])] + v[1:])
         r = base + extra
@@ -90,6 +111,8 @@ def values_c09(ast, tier):
 def fresh_c09(v):
     if type(v) is InsertingDict:
         return InsertingDict(values.fresh(dict(v)))
+    if type(v) is VivMapping:
+        return VivMapping(values.fresh(dict(v)))
     if type(v) is collections.defaultdict:
         return collections.defaultdict(v.default_factory, values.fresh(dict(v)))
     if type(v) is list:
